@@ -60,8 +60,12 @@ def _run_build(cmd, cwd, what, verbose=False, env_extra=None):
         print(f"built {what} in {time.time() - t0:.1f}s")
 
 
-def build_harness(verbose=False):
-    """Rebuild the harness (path-depends on /repo, so cargo rebuilds when /repo/src changed)."""
+SV_DBG = os.path.join(TARGET, "harness", "dbgassert", "sv")
+
+
+def build_harness(verbose=False, profile="release"):
+    """Rebuild the harness (path-depends on /repo, so cargo rebuilds when /repo/src changed).
+    profile "dbgassert" = release + debug-assertions + overflow-checks (used by C07)."""
     with _Lock(".build.lock"):
         src = os.path.join(ROOT, "harness")
         if os.path.realpath(REPO) != "/repo":
@@ -74,10 +78,12 @@ def build_harness(verbose=False):
             open(os.path.join(src, "Cargo.toml"), "w").write(ct)
             shutil.copy(os.path.join(REPO, "Cargo.lock"), os.path.join(src, "Cargo.lock"))
         env_extra = {"CARGO_TARGET_DIR": os.path.join(TARGET, "harness")}
-        _run_build(["cargo", "build", "--release", "--offline"], src, "harness (sv)", verbose, env_extra)
-    if not os.path.exists(SV):
+        flag = ["--release"] if profile == "release" else ["--profile", profile]
+        _run_build(["cargo", "build", "--offline"] + flag, src, f"harness (sv, {profile})", verbose, env_extra)
+    out = SV if profile == "release" else os.path.join(TARGET, "harness", profile, "sv")
+    if not os.path.exists(out):
         raise HarnessError("harness binary missing after build")
-    return SV
+    return out
 
 
 def build_cli(verbose=False):
@@ -95,6 +101,7 @@ def build_cli(verbose=False):
 def build_all(verbose=False):
     try:
         build_harness(verbose)
+        build_harness(verbose, profile="dbgassert")
         build_cli(verbose)
         return True
     except HarnessError as e:
@@ -341,9 +348,13 @@ LIB_META = {
             "normalisations) plus token-stream equality (no code swallowed by a comment). Non-trivial as for C01."),
     "C06": ("exploration", "Corpus x option array x widths and critical widths, generated programs and mutants (seeded, "
             "width >= 40). Oracle: byte equality of format(format(p)) and format(p). Non-trivial as for C01."),
-    "C07": ("exploration", "C01's workload plus extreme configurations, hostile ranges and destructive corpus mutants. "
-            "Oracles: no unwind out of format_code, no worker abort, logical-step (H1 tick) budget, agreement with the "
-            "checker's parser on accept/reject. Non-trivial as for C01."),
+    "C07": ("exploration", "C01's workload plus: every corpus file at column_width 1/2/3/usize::MAX and indent_width 1..16; hostile ranges "
+            "(empty, inverted, beyond the end, usize::MAX, inside a multi-byte character); 16 collapse x ignore x comment templates x 4 "
+            "collapse modes x 3 widths x every line-aligned range; nesting-depth ramps d=4..32 of 6 families judged by logical-step growth; "
+            "pinned invalid inputs; seeded destroyed inputs (truncate / splice / delete token / junk; about 80 % invalid). The quick "
+            "workload is repeated on a release+debug-assertions+overflow-checks build. Oracles: no unwind out of format_code (panic "
+            "origin from the panic location), no worker abort (subprocess attribution), H1 tick budget 20000+400n+n^2 and growth bound, "
+            "accept/reject agreement with the checker's parser, own-lexer bracket balance on accepted inputs. Non-trivial as for C01."),
     "C10": ("exploration", "Corpus and generated programs rendered with LF/CRLF/mixed endings and tab/space/mixed "
             "indentation x line_endings x indent_type x indent_width x widths. Oracle: byte-level line-ending, "
             "indentation and end-of-file rules outside string contents (own lexer masks). Non-trivial as for C01."),
@@ -399,6 +410,20 @@ def run_check(prop, tier, seed, t0):
         build_harness()
         m = run_workers(prop, tier, seed)
         level, rule = LIB_META[prop]
+        if prop == "C07":
+            # second build profile: release + debug-assertions + overflow-checks (a debug_assert!
+            # or an arithmetic overflow is a panic in every `cargo test` build)
+            sv_dbg = build_harness(profile="dbgassert")
+            m2 = run_workers(prop, "quick", seed, sv=sv_dbg)
+            for f in m2.get("findings", []):
+                f["detail"] = "(debug-assertions + overflow-checks build) " + f.get("detail", "")
+            m["findings"].extend(m2.get("findings", []))
+            m["evaluations"] += m2.get("evaluations", 0)
+            m["inconclusive"] += m2.get("inconclusive", 0)
+            m["aborted"] = m.get("aborted", []) + m2.get("aborted", [])
+            m["counters"]["dbgassert_profile.evaluations"] = m2.get("evaluations", 0)
+            for k, v in m2.get("per_signature", {}).items():
+                m["per_signature"][k] = m["per_signature"].get(k, 0) + v
         return finish(prop, tier, seed, t0, level, m, rule, COMMON_ASSUMPTIONS)
     if prop in CLI_PROPS:
         # CLI monitors: Python modules cli/cNN.py with META, run(tier, seed) and replay(case)
